@@ -115,6 +115,24 @@ pub fn cases(tier: Tier) -> Vec<Case> {
     for (i, s) in gm.all().into_iter().enumerate() {
         out.push(Case { t: s, layout: (i % 5) as u8, elim_first: false });
     }
+    // trees over R^0 (what remove_axes leaves when every axis is sliced away): predicates 0 <= b, constant terminals
+    let z = |b: f64| Aff::with_indim(vec![vec![]], vec![b], 0);
+    let g0 = TreeGen { k: 2, preds: vec![z(-1.0), z(0.0), z(1.0)], terms: vec![z(1.0), z(2.0)], max_depth: 2, max_nodes: 5, partial: true };
+    for (i, s) in g0.all().into_iter().enumerate() {
+        out.push(Case { t: s, layout: (i % 5) as u8, elim_first: false });
+    }
+    // terminals that are equal as numbers but differ in the sign of a zero
+    let gz = TreeGen {
+        k: 2,
+        preds: vec![r1(&[1.0, 0.0], 0.0), r1(&[0.0, 1.0], 1.0)],
+        terms: vec![r1(&[0.0, 1.0], 0.0), r1(&[-0.0, 1.0], 0.0), r1(&[0.0, 1.0], -0.0), r1(&[0.0, 1.0], 1.0)],
+        max_depth: 2,
+        max_nodes: 5,
+        partial: true,
+    };
+    for (i, s) in gz.all().into_iter().enumerate() {
+        out.push(Case { t: s, layout: (i % 5) as u8, elim_first: i % 3 == 0 });
+    }
     for levels in 1..=4 {
         for odd in [None, Some(&t1), Some(&t2)] {
             for layout in 0..5u8 {
@@ -188,19 +206,38 @@ pub fn run_case(c: &Case) -> CaseOut {
     let rf = TreeSide(&sb);
     let mut conf = 0u64;
     let mut conf_errs: Vec<String> = vec![];
-    let o = refine(sb.in_dim, &imp, &rf, &Config::default(), &mut out, &mut |face, _, _| {
-        let (n, e) = conform_face(&r, &sa, face, true);
-        conf += n;
-        if let Some(e) = e {
-            conf_errs.push(e);
+    if sb.in_dim == 0 {
+        // a single-point domain: compare the two routes and the real evaluator at the empty input
+        let mut g = vec![];
+        let idm = crate::regions::AffMap { m: vec![], c: vec![] };
+        let before = sb.route(&idm, 0, &[], &mut g).map(|o| o.map(|(_, m)| m.c));
+        let after = sa.route(&idm, 0, &[], &mut g).map(|o| o.map(|(_, m)| m.c));
+        out.add("states", 1);
+        out.add("transitions", 1);
+        if before != after {
+            viol(&mut out, "function", format!("reduce changed the value at the only input of a tree over R^0: {:?} -> {:?}", before, after));
         }
-    });
-    out.add("traces_validated_against_impl", conf);
-    if let Some(e) = conf_errs.first() {
-        viol(&mut out, "conformance", format!("real evaluator disagrees with documented routing: {e}"));
-    }
-    if let Some(m) = o.mismatches.first() {
-        viol(&mut out, "function", format!("reduce changed the function: {}", mismatch_summary(m)));
+        let real = catch(|| r.evaluate(&ndarray::Array1::<f64>::zeros(0)).map(|v| v.to_vec()));
+        let exp = after.clone().ok().flatten().map(|v| v.iter().map(|q| q.to_f64()).collect::<Vec<f64>>());
+        match real {
+            Ok(v) if v == exp => out.add("traces_validated_against_impl", 1),
+            other => viol(&mut out, "conformance", format!("real evaluate at the empty input gives {:?}, snapshot routing {:?}", other, exp)),
+        }
+    } else {
+        let o = refine(sb.in_dim, &imp, &rf, &Config::default(), &mut out, &mut |face, _, _| {
+            let (n, e) = conform_face(&r, &sa, face, true);
+            conf += n;
+            if let Some(e) = e {
+                conf_errs.push(e);
+            }
+        });
+        out.add("traces_validated_against_impl", conf);
+        if let Some(e) = conf_errs.first() {
+            viol(&mut out, "conformance", format!("real evaluator disagrees with documented routing: {e}"));
+        }
+        if let Some(m) = o.mismatches.first() {
+            viol(&mut out, "function", format!("reduce changed the function: {}", mismatch_summary(m)));
+        }
     }
     // no decision below the root with two equal terminal children
     for (i, n) in &sa.nodes {
